@@ -982,6 +982,83 @@ func ParamsReachingResult(fn *ssa.Function) map[int]bool {
 	return out
 }
 
+// paramsReachingValue: the parameters (receiver excluded) that root flows from, through
+// operands only (no phi merging across alternatives: callers pass one phi leaf at a time).
+func paramsReachingValue(fn *ssa.Function, root ssa.Value) map[int]bool {
+	seen := map[ssa.Value]bool{}
+	var walk func(v ssa.Value)
+	walk = func(v ssa.Value) {
+		if v == nil || seen[v] {
+			return
+		}
+		seen[v] = true
+		if in, ok := v.(ssa.Instruction); ok {
+			for _, op := range in.Operands(nil) {
+				if op != nil && *op != nil {
+					walk(*op)
+				}
+			}
+		}
+		if a, ok := v.(*ssa.Alloc); ok {
+			if refs := a.Referrers(); refs != nil {
+				for _, r := range *refs {
+					if st, ok := r.(*ssa.Store); ok && st.Addr == a {
+						walk(st.Val)
+					}
+				}
+			}
+		}
+	}
+	walk(root)
+	out := map[int]bool{}
+	for i, p := range fn.Params {
+		if seen[p] {
+			idx := i
+			if fn.Signature.Recv() != nil {
+				idx = i - 1
+			}
+			out[idx] = true
+		}
+	}
+	return out
+}
+
+// RequireAllParamsInEveryResult: stricter than RequireAllParamsUsed — every alternative
+// value the key constructor can return (each leaf of the returned phi) is built from all
+// of its parameters, so no branch drops one of them from the key.
+func (c *Ctx) RequireAllParamsInEveryResult(rule, name string) {
+	fn := c.Fn(name)
+	if fn == nil {
+		return
+	}
+	n := fn.Signature.Params().Len()
+	missing := map[int]string{}
+	leaves := 0
+	for _, r := range c.AllReturns(fn) {
+		for _, leaf := range phiLeaves(RetVal(r.Instr.(*ssa.Return), 0)) {
+			leaves++
+			used := paramsReachingValue(fn, leaf)
+			for i := 0; i < n; i++ {
+				if !used[i] {
+					missing[i] = trunc(ir.Desc(leaf), 100)
+				}
+			}
+		}
+	}
+	if leaves == 0 {
+		c.Undecided("%s: %s has no returned value to examine", rule, name)
+		return
+	}
+	for i := 0; i < n; i++ {
+		key := fmt.Sprintf("%s/%s/param-in-every-result/%s", rule, name, fn.Signature.Params().At(i).Name())
+		if why, bad := missing[i]; bad {
+			c.Fail(key, c.P.Pos(fn.Pos()), fmt.Sprintf("parameter %s of %s is left out of the key on some path (the value %s does not depend on it): entries that differ only in it share a key", fn.Signature.Params().At(i).Name(), name, why))
+		} else {
+			c.OK(key, c.P.Pos(fn.Pos()), "part of every returned key")
+		}
+	}
+}
+
 func walkStores(addr ssa.Value, walk func(ssa.Value)) {
 	if refs := addr.Referrers(); refs != nil {
 		for _, r := range *refs {
